@@ -46,6 +46,19 @@ def gen_lines(chk, rng):
                 lines.append('bits op=get T=%s v=0x%x n=%d' % (t, v, n))
                 lines.append('bits op=set T=%s v=0x%x n=%d b=0' % (t, v, n))
                 lines.append('bits op=set T=%s v=0x%x n=%d b=1' % (t, v, n))
+    # whole histories of setter calls on one set object (theorem set_sequence): repeated writes to one choice,
+    # neighbours, the top bits, set-then-clear
+    nseq = 400 if thorough else 60
+    for t, w in WIDTH.items():
+        for _ in range(nseq):
+            v = rng.choice([0, (1 << w) - 1, rng.getrandbits(w), rng.getrandbits(w)])
+            k = rng.randint(2, 24)
+            hot = [rng.randrange(w) for _ in range(rng.randint(1, 4))] + [w - 1, 0]
+            ops = []
+            for _ in range(k):
+                n = rng.choice(hot) if rng.random() < 0.6 else rng.randrange(w)
+                ops.append('%d:%d' % (n, rng.getrandbits(1)))
+            lines.append('bits op=seq T=%s v=0x%x n=0 ops=%s' % (t, v, ','.join(ops)))
     return lines
 
 
@@ -84,7 +97,9 @@ def correspond(chk, configs):
                 impl_ok = impl == mk.get('spec') and ik.get('implub') == '0'
             else:
                 impl_ok = impl == mk.get('spec')
-            if req['op'] in ('get', 'set'):
+            if req['op'] == 'seq':
+                nontrivial.add((req['T'], 'seq', req['v'], req['ops']))
+            elif req['op'] in ('get', 'set'):
                 nontrivial.add((req['T'], req['op'], req['v'], req['n'], req.get('b')))
             else:
                 nontrivial.add((req['T'], req['op'], req['n'], req.get('b')))
